@@ -56,6 +56,23 @@ def step (j : Json) : R Json := do
     match partitionStructured (← fNats j "fine") (← fNats j "coarse") with
     | .error e => pure (errJson e)
     | .ok p => pure (obj [("part", ofInts p)])
+  | "dcd" =>
+    match dcd exactRoot (← fNat j "target") (← fNats j "fine") with
+    | .error e => pure (errJson e)
+    | .ok c => pure (obj [("coarse", ofNats c)])
+  | "pcoord" =>
+    let los ← fRats j "lo"
+    let his ← fRats j "hi"
+    let cs ← match dcd exactRoot (← fNat j "num") (← fNats j "delta_int") with
+      | .ok c => pure c
+      | .error _ => throw "dcd"
+    let axes := (los.zip (his.zip cs)).map (fun t => ({ lo := t.1, hi := t.2.1, c := t.2.2 } : Axis))
+    let centers ← fRatss j "cc"
+    let margin := centers.foldl (fun m x =>
+      (axes.zip x).foldl (fun m ax => let d := axisMargin ax.1 ax.2; if d < m then d else m) m) (1 : Rat)
+    match pcoord axes centers with
+    | .error e => pure (obj [("coarse", ofNats cs), ("margin", ofRat margin), ("res", errJson e)])
+    | .ok p => pure (obj [("coarse", ofNats cs), ("margin", ofRat margin), ("res", obj [("part", ofInts p)])])
   | "overlap" =>
     match overlap (← fNatss j "ce") (← fNats j "cells") (← fNat j "layers") with
     | .error e => pure (errJson e)
